@@ -556,7 +556,7 @@ def _model_run(ops):
                 res = "Err(DetachedInstruction"
             else:
                 fns[sf][3][sb][1] += 1
-        elif op == "ret":
+        elif op in ("ret", "kill", "br", "mesh", "terminv", "unreach", "ignint", "termray", "retval", "ins_mesh", "ins_terminv"):
             if sb is None:
                 res = "Err(MismatchedTerminator)"
             else:
@@ -639,6 +639,9 @@ def witness(failure, ctx):
             if any(o.startswith("ins:") or o == "ver" for o in s):
                 scripts.append(list(s))
                 scripts.append(["bf", "bb"] + list(s))
+    # every generated terminator the loader recognises closes the block (a following instruction is detached, a block can begin)
+    for t in ("kill", "br", "mesh", "terminv", "unreach", "ignint", "termray", "retval", "ins_mesh", "ins_terminv"):
+        scripts += [["bf", "bb", t], ["bf", "bb", t, "nop"], ["bf", "bb", t, "bb", "ret", "ef"], ["bf", "bb", "nop", t, "ret"], [t], ["bf", t]]
     scripts += [["bf", "bb", "ef", "bf", "nop"], ["bf", "bb", "ret", "bb", "ret", "ef", "bf", "sf:0", "sb:1", "sf:1", "nop"],
                 ["bf", "bb", "nop", "nop", "pop", "ret", "ef", "bf", "bb", "ret", "ef", "sf:0", "sb:0", "nop", "sf:1", "sb:0", "pop", "pop"],
                 ["tvoid", "tvoid", "id", "bf", "param", "bb", "var", "ret", "ef", "tvoid"]]
